@@ -35,8 +35,8 @@ func selCall(name string) func(*ast.CallExpr) bool {
 func runC18(c *core.Ctx) {
 	c.Clause("D1", func() {
 		f := c.Fn(coord + ".(*Service).processCopyShardRequest")
-		c.Need(len(f.Lits) >= 1, "processCopyShardRequest: work closure")
-		lit := f.Lits[0]
+		lit := workUnit(c.P, f, selCall("RestoreShard"))
+		c.Need(lit != nil && lit != f, "processCopyShardRequest: work closure")
 		for _, name := range []string{"backupRemoteShard", "CreateShard", "RestoreShard"} {
 			findOrAbort(c, lit, name, evCall(selCall(name)), 1)
 			n := returnsOnlyAfterOK(c, lit, "copy-succeeds-only-after-"+name, name, selCall(name), func(e *core.Event) string {
@@ -46,10 +46,7 @@ func runC18(c *core.Ctx) {
 			c.Floor("possibly-nil returns of the copy closure ("+name+")", n, 1)
 		}
 		// the success response
-		isClosureCall := func(ce *ast.CallExpr) bool {
-			_, ok := ast.Unparen(ce.Fun).(*ast.FuncLit)
-			return ok
-		}
+		isClosureCall := callsUnit(f, lit)
 		info := f.Info()
 		n := 0
 		for _, e := range f.Graph().Events {
@@ -307,9 +304,9 @@ func runC18(c *core.Ctx) {
 
 	c.Clause("D4", func() {
 		f := c.Fn(tsm1 + ".(*Engine).overlay")
-		c.Need(len(f.Lits) >= 1, "overlay: locked closure")
-		lit := f.Lits[0]
 		read := selCall("readFileFromBackup")
+		lit := workUnit(c.P, f, read)
+		c.Need(lit != nil, "overlay: locked closure")
 		findOrAbort(c, lit, "readFileFromBackup", evCall(read), 1)
 		rep := func(e *core.Event) bool { return e.Kind == core.EvCall && selCall("Replace")(e.Call) }
 		findOrAbort(c, lit, "FileStore.Replace", rep, 1)
@@ -437,6 +434,25 @@ func runFailureAnsweredInBand(c *core.Ctx) {
 			}
 			if _, ok := ast.Unparen(e.Call.Fun).(*ast.FuncLit); ok && work == nil {
 				work = e
+			}
+		}
+		if work == nil {
+			// the closure extracted into a named function: a function of this package that is handed the
+			// connection and returns only an error
+			for _, e := range f.Graph().Events {
+				if e.Kind != core.EvCall || work != nil {
+					continue
+				}
+				fn, _ := e.Callee.(*types.Func)
+				g := c.P.FuncOf(fn)
+				if g == nil || g.Pkg != f.Pkg || g.NumResults() != 1 || g.ErrResultIndex() != 0 {
+					continue
+				}
+				for _, a := range e.Call.Args {
+					if id, ok := ast.Unparen(a).(*ast.Ident); ok && info.ObjectOf(id) == conn {
+						work = e
+					}
+				}
 			}
 		}
 		if work == nil {
